@@ -416,3 +416,56 @@ Qed.
 
 Lemma pprof_guard_orig_unbounded : forall limit, (0 <= limit)%Z -> exists layers, (limit < snd (pprof_guard_orig 0 layers))%Z.
 Proof. intros limit H. exists [(limit + 1)%Z]. cbn. lia. Qed.
+
+(* ------------------------------------------------------------------------------------------ *)
+(** * 7. What the lockstep verdict means *)
+
+Lemma chg_eqb_eq : forall a b, chg_eqb a b = true -> a = b.
+Proof. intros [] []; cbn; try discriminate; try reflexivity. intros H. apply String.eqb_eq in H. now subst. Qed.
+Lemma chgs_eqb_eq : forall a b, chgs_eqb a b = true -> a = b.
+Proof.
+  induction a as [|x a IH]; intros [|y b] H; cbn in H; try discriminate; [reflexivity|].
+  apply andb_true_iff in H as [H1 H2]. now rewrite (chg_eqb_eq _ _ H1), (IH _ H2).
+Qed.
+
+(* what a list does to ONE member: its own changes, in order *)
+Lemma run_block_member : forall ev blk st m,
+  run_block ev st blk m = fold_left (fun n c => apply_chg ev c n) (proj m blk) (st m).
+Proof.
+  intros ev. induction blk as [|[x c] blk IH]; intros st m; [reflexivity|].
+  unfold run_block in *. cbn [fold_left fst snd]. rewrite IH. unfold proj. cbn [filter fst].
+  unfold upd. rewrite (String.eqb_sym m x). destruct (String.eqb x m) eqn:E.
+  - apply String.eqb_eq in E. subst x. reflexivity.
+  - reflexivity.
+Qed.
+
+Lemma uniform_block_keeps_equal : forall members b ev st, block_uniform members b = true ->
+  members_equal members st -> members_equal members (run_block ev st (fst b)).
+Proof.
+  intros members [blk cf] ev st Hu Heq m m' Hm Hm'. cbn [fst]. rewrite !run_block_member.
+  unfold block_uniform in Hu. cbn [fst snd] in Hu. apply andb_true_iff in Hu as [_ Hu].
+  destruct members as [|m0 r]; [contradiction|]. apply andb_true_iff in Hu as [_ Hu]. rewrite forallb_forall in Hu.
+  assert (P : forall x, In x (m0 :: r) -> proj x blk = proj m0 blk).
+  { intros x [<-|Hx]; [reflexivity|]. apply chgs_eqb_eq. exact (Hu x Hx). }
+  rewrite (P m Hm), (P m' Hm'), (Heq m m' Hm Hm'). reflexivity.
+Qed.
+
+(* any sequence of executions of uniform lists, with any values of the make expressions *)
+Theorem lockstep_keeps_members_equal : forall members blocks, forallb (block_uniform members) blocks = true ->
+  forall tr, (forall blk ev, In (blk, ev) tr -> exists cf, In (blk, cf) blocks) ->
+  forall st, members_equal members st -> members_equal members (run_trace st tr).
+Proof.
+  intros members blocks Hb. rewrite forallb_forall in Hb.
+  induction tr as [|[blk ev] tr IH]; intros Htr st Hst; cbn [run_trace]; [exact Hst|].
+  apply IH.
+  - intros b e Hin. apply (Htr b e). now right.
+  - destruct (Htr blk ev (or_introl eq_refl)) as [cf Hin]. exact (uniform_block_keeps_equal members (blk, cf) ev st (Hb _ Hin) Hst).
+Qed.
+
+(* the hypothesis is needed, and counting kinds per list (the third session's rule) is not enough: every member gets one append
+   and one reset in this list, and the two end up with different lengths *)
+Lemma kind_counting_is_not_enough :
+  let blk := [("a", ChAppend1); ("b", ChReset); ("a", ChReset); ("b", ChAppend1)] in
+  block_uniform ["a"; "b"] (blk, false) = false /\
+  run_block (fun _ => 0) (fun _ => 0) blk "a" <> run_block (fun _ => 0) (fun _ => 0) blk "b".
+Proof. split; [reflexivity|]. vm_compute. discriminate. Qed.
